@@ -166,6 +166,8 @@ pub struct SchedReader {
     pub calls: usize,
     pub fail_at: Option<usize>,
     pub empty_buf_calls: usize,
+    /// kind of the injected read failure (an error is an error, whatever its kind)
+    pub fail_kind: std::io::ErrorKind,
 }
 
 impl Read for SchedReader {
@@ -176,10 +178,7 @@ impl Read for SchedReader {
             self.empty_buf_calls += 1;
         }
         if self.fail_at == Some(call) {
-            return Err(std::io::Error::new(
-                std::io::ErrorKind::Other,
-                "injected read failure",
-            ));
+            return Err(std::io::Error::new(self.fail_kind, "injected read failure"));
         }
         let want = self.sched.get(call).copied().unwrap_or(usize::MAX);
         let n = want.min(buf.len()).min(self.data.len() - self.pos);
@@ -217,6 +216,42 @@ impl Write for LimitWriter {
 // ---------------------------------------------------------------------
 // A uniform view of the search API over the low-level automata (through the
 // `Automaton` trait) and the top-level `AhoCorasick`.
+
+thread_local! {
+    /// `replace_all_with(_bytes)` APPEND to a caller-supplied buffer: (bytes already in it, spare capacity)
+    pub static DST_PRE: std::cell::RefCell<(Vec<u8>, usize)> = std::cell::RefCell::new((vec![], 0));
+}
+
+fn dst_bytes() -> Vec<u8> {
+    DST_PRE.with(|d| {
+        let d = d.borrow();
+        let mut v = Vec::with_capacity(d.0.len() + d.1);
+        v.extend_from_slice(&d.0);
+        v
+    })
+}
+
+fn dst_string() -> String {
+    DST_PRE.with(|d| {
+        let d = d.borrow();
+        let mut v = String::with_capacity(d.0.len() + d.1);
+        v.push_str(&String::from_utf8_lossy(&d.0));
+        v
+    })
+}
+
+/// what was in the buffer before the call must still be there, untouched, in front of the output
+fn strip_pre(out: &[u8]) -> Result<Vec<u8>, String> {
+    DST_PRE.with(|d| {
+        let d = d.borrow();
+        let pre = String::from_utf8_lossy(&d.0).to_string().into_bytes();
+        if out.len() >= pre.len() && out[..pre.len()] == pre[..] {
+            Ok(out[pre.len()..].to_vec())
+        } else {
+            Err("dst-prefix-corrupted".to_string())
+        }
+    })
+}
 
 pub trait Srch {
     fn find(&self, i: Input<'_>) -> Result<Option<Match>, MatchError>;
@@ -313,7 +348,7 @@ impl<A: Automaton> Srch for Low<A> {
         hay: &[u8],
         f: &mut dyn FnMut(&Match, &[u8], &mut Vec<u8>) -> bool,
     ) -> Result<Vec<u8>, MatchError> {
-        let mut dst = vec![];
+        let mut dst = dst_bytes();
         self.0.try_replace_all_with_bytes(hay, &mut dst, |m, b, d| f(m, b, d))?;
         Ok(dst)
     }
@@ -329,7 +364,7 @@ impl<A: Automaton> Srch for Low<A> {
         hay: &str,
         f: &mut dyn FnMut(&Match, &str, &mut String) -> bool,
     ) -> Result<String, MatchError> {
-        let mut dst = String::new();
+        let mut dst = dst_string();
         self.0.try_replace_all_with(hay, &mut dst, |m, b, d| f(m, b, d))?;
         Ok(dst)
     }
@@ -410,7 +445,7 @@ impl Srch for AhoCorasick {
         hay: &[u8],
         f: &mut dyn FnMut(&Match, &[u8], &mut Vec<u8>) -> bool,
     ) -> Result<Vec<u8>, MatchError> {
-        let mut dst = vec![];
+        let mut dst = dst_bytes();
         self.try_replace_all_with_bytes(hay, &mut dst, |m, b, d| f(m, b, d))?;
         Ok(dst)
     }
@@ -426,7 +461,7 @@ impl Srch for AhoCorasick {
         hay: &str,
         f: &mut dyn FnMut(&Match, &str, &mut String) -> bool,
     ) -> Result<String, MatchError> {
-        let mut dst = String::new();
+        let mut dst = dst_string();
         self.try_replace_all_with(hay, &mut dst, |m, b, d| f(m, b, d))?;
         Ok(dst)
     }
@@ -578,7 +613,9 @@ pub fn run_op(r: &Req, b: &Built) -> Result<String, String> {
             let repl = r.list("repl")?;
             let variant = r.s_or("variant", "bytes");
             let stop = r.kv.get("stop").and_then(|x| x.parse::<usize>().ok());
-            Ok(with_srch(b, &mut |s| match variant {
+            let dstpre = if r.kv.contains_key("dstpre") { r.bytes("dstpre")? } else { vec![] };
+            DST_PRE.with(|d| *d.borrow_mut() = (dstpre, r.n_or("dstcap", 0)));
+            let out = with_srch(b, &mut |s| match variant {
                 "bytes" => match s.replace_bytes(&hay, &repl) {
                     Err(e) => err_name(&e),
                     Ok(o) => hex(&o),
@@ -600,7 +637,10 @@ pub fn run_op(r: &Req, b: &Built) -> Result<String, String> {
                     );
                     match res {
                         Err(e) => err_name(&e),
-                        Ok(o) => format!("{} {}", hex(&o), fmt_list(&log)),
+                        Ok(o) => match strip_pre(&o) {
+                            Ok(o) => format!("{} {}", hex(&o), fmt_list(&log)),
+                            Err(e) => e,
+                        },
                     }
                 }
                 "str" => {
@@ -651,16 +691,21 @@ pub fn run_op(r: &Req, b: &Built) -> Result<String, String> {
                     );
                     match res {
                         Err(e) => err_name(&e),
-                        Ok(o) => format!(
-                            "{} utf8={} {}",
-                            hex(o.as_bytes()),
-                            std::str::from_utf8(o.as_bytes()).is_ok() as u8,
-                            fmt_list(&log)
-                        ),
+                        Ok(o) => match strip_pre(o.as_bytes()) {
+                            Ok(ob) => format!(
+                                "{} utf8={} {}",
+                                hex(&ob),
+                                std::str::from_utf8(o.as_bytes()).is_ok() as u8,
+                                fmt_list(&log)
+                            ),
+                            Err(e) => e,
+                        },
                     }
                 }
                 _ => "bad-variant".to_string(),
-            }))
+            });
+            DST_PRE.with(|d| *d.borrow_mut() = (vec![], 0));
+            Ok(out)
         }
         "stream" | "streamrep" | "streamrepwith" => {
             let data = r.bytes("hay")?;
@@ -677,6 +722,12 @@ pub fn run_op(r: &Req, b: &Built) -> Result<String, String> {
                 calls: 0,
                 fail_at: rfail,
                 empty_buf_calls: 0,
+                fail_kind: match r.s_or("rkind", "other") {
+                    "interrupted" => std::io::ErrorKind::Interrupted,
+                    "wouldblock" => std::io::ErrorKind::WouldBlock,
+                    "eof" => std::io::ErrorKind::UnexpectedEof,
+                    _ => std::io::ErrorKind::Other,
+                },
             };
             let mut wtr = LimitWriter { out: vec![], limit: wlimit };
             let out = with_srch(b, &mut |s| match op {
@@ -742,6 +793,7 @@ pub fn run_op(r: &Req, b: &Built) -> Result<String, String> {
                 calls: 0,
                 fail_at: None,
                 empty_buf_calls: 0,
+                fail_kind: std::io::ErrorKind::Other,
             };
             Ok(with_srch(b, &mut |s| {
                 let mut rdr = mk(&data);
@@ -885,7 +937,7 @@ pub fn run_op(r: &Req, b: &Built) -> Result<String, String> {
                     }
                 };
                 let (t, f) = aho_corasick::verif::counters();
-                format!("{} t={} f={}", res, t, f)
+                format!("{} t={} f={} p={}", res, t, f, aho_corasick::verif::prescan())
             }))
         }
         "cert" => match b {
@@ -1106,6 +1158,7 @@ pub fn gate(r: &Req, b: &Built) -> Result<String, String> {
                         calls: 0,
                         fail_at: None,
                         empty_buf_calls: 0,
+                        fail_kind: std::io::ErrorKind::Other,
                     };
                     cls(s.stream_find(&mut rdr).map(|_| ()))
                 }
@@ -1117,6 +1170,7 @@ pub fn gate(r: &Req, b: &Built) -> Result<String, String> {
                         calls: 0,
                         fail_at: None,
                         empty_buf_calls: 0,
+                        fail_kind: std::io::ErrorKind::Other,
                     };
                     let mut w = LimitWriter { out: vec![], limit: None };
                     clsio(s.stream_replace(&mut rdr, &mut w, &repl))
